@@ -15,6 +15,7 @@
 -/
 import Hw.Attr.DistancesLemmas
 import Hw.Attr.GroupingSets
+import Hw.Attr.GroupingClosure
 namespace Hw.Props.C13
 open Hw.Dist
 
@@ -335,6 +336,18 @@ theorem C13_group_ids_connected (M : Mat) (n : Nat) (h : (findGroups M n).1 ≠ 
   obtain ⟨seed, _, hs⟩ := (findGroups_spec M n h).2.2.2.1 _ (Nat.pos_of_ne_zero ha) ((findGroups_spec M n h).1 a)
   exact ⟨seed, hs a rfl, hs b hab.symm⟩
 
+/-- **closure characterisation**: when "the cell is minimal" is symmetric and transitive among the `n` objects (block-structured
+matrices), two distinct objects get the same non-zero id IFF their cell is minimal, and an object gets no id IFF none of its cells is
+minimal — the ids are exactly the classes of the minimal-distance relation, whatever the order in which the objects are listed.
+(Without transitivity only `C13_group_ids_connected` holds: see `C13_group_closure_not_transitive_witness`.) -/
+theorem C13_group_ids_closure (M : Mat) (n : Nat) (hnb : (findGroups M n).1 ≠ 0)
+    (hsym : ∀ a b, a < n → b < n → M a b = minDist M n → M b a = minDist M n)
+    (htr : ∀ a b c, a < n → b < n → c < n → a ≠ c → M a b = minDist M n → M b c = minDist M n → M a c = minDist M n) :
+    (∀ a b, a < n → b < n → a ≠ b →
+      (((findGroups M n).2 a = (findGroups M n).2 b ∧ (findGroups M n).2 a ≠ 0) ↔ M a b = minDist M n)) ∧
+    (∀ a, a < n → ((findGroups M n).2 a = 0 ↔ ∀ b, b < n → b ≠ a → M a b ≠ minDist M n)) :=
+  findGroups_clique M n hnb hsym htr
+
 /-- a round has at most `n / 2` groups, so the recursion on the matrix between the groups terminates: any fuel `≥ n` gives the same
 list of rounds -/
 theorem C13_group_rounds_fuel (kind f n : Nat) (M : Mat) (b : Bool) (hf : n ≤ f) : rounds kind f n M b = rounds kind n n M b :=
@@ -368,6 +381,14 @@ def pairs4 : Mat := fun i j => if i = j then 0 else if i / 2 = j / 2 then 1 else
 
 example : (findGroups pairs4 4).1 = 2 ∧ (List.range 4).map (findGroups pairs4 4).2 = [1, 1, 2, 2] := by decide +kernel
 example : checkMatrix pairs4 4 = true ∧ rounds 5 4 4 pairs4 true = [⟨4, 2, [1, 1, 2, 2]⟩] := by decide +kernel
+/-- `pairs4` meets the hypotheses of `C13_group_ids_closure` -/
+example : ((findGroups pairs4 4).2 0 = (findGroups pairs4 4).2 1 ∧ (findGroups pairs4 4).2 0 ≠ 0) ↔ pairs4 0 1 = minDist pairs4 4 := by
+  have hs : ∀ a, a < 4 → ∀ b, b < 4 → pairs4 a b = minDist pairs4 4 → pairs4 b a = minDist pairs4 4 := by decide +kernel
+  have ht : ∀ a b c : Fin 4, a.val ≠ c.val → pairs4 a b = minDist pairs4 4 → pairs4 b c = minDist pairs4 4 →
+      pairs4 a c = minDist pairs4 4 := by decide +kernel
+  exact (C13_group_ids_closure pairs4 4 (by decide +kernel) (fun a b ha hb => hs a ha b hb)
+    (fun a b c ha hb hc => ht ⟨a, ha⟩ ⟨b, hb⟩ ⟨c, hc⟩)).1 0 1 (by omega) (by omega) (by omega)
+
 /-- 8 objects, pairs inside quads: two nested rounds (4 Groups, then 2 Groups of Groups; the last level would be a single group) -/
 example : (rounds 5 8 8 (fun i j => if i = j then 0 else if i / 2 = j / 2 then 1 else if i / 4 = j / 4 then 3 else 7) true).map (·.ids)
     = [[1, 1, 2, 2, 3, 3, 4, 4], [1, 1, 2, 2]] := by decide +kernel
